@@ -251,6 +251,17 @@ SearchScenarios ==
      {[ep |-> "GET /schedules", field |-> "query", raw |-> q, expect |-> IF q \in {"?id=%25&tags[a]=b", "?id=@LONG@", "?id=*&limit=0", "?id=*&tags=zz", "?id=*&state=bogus"} THEN "ok" ELSE "4xx",
        steps |-> << Http("hostile", "GET", "/schedules" \o q, "") >> \o Aftermath(200)] : q \in qs}
 
+\* --- a genuine cursor of one search handed to the other search (and a promise cursor replayed with other filters)
+CursorScenarios ==
+  LET three == << CreateP("a-@SID@", "@NOW+60000@", "{}"), CreateP("b-@SID@", "@NOW+60000@", "{}"), CreateP("c-@SID@", "@NOW+60000@", "{}"),
+                  Http("s1", "POST", "/schedules", Obj(With(ScheduleFields, "id", "\"s1-@SID@\""))), Http("s2", "POST", "/schedules", Obj(With(ScheduleFields, "id", "\"s2-@SID@\""))),
+                  Http("ppage", "GET", "/promises?id=*&limit=1", ""), Http("spage", "GET", "/schedules?id=*&limit=1", "") >>
+      uses == { <<"promise cursor to schedules", "/schedules?cursor=@JSON:ppage:cursor@">>, <<"schedule cursor to promises", "/promises?cursor=@JSON:spage:cursor@">>,
+                <<"promise cursor with other filters", "/promises?id=zzz*&state=resolved&limit=5&cursor=@JSON:ppage:cursor@">>,
+                <<"promise cursor twice", "/promises?cursor=@JSON:ppage:cursor@&cursor=@JSON:ppage:cursor@">> }
+  IN {[ep |-> "GET search", field |-> u[1], raw |-> u[2], expect |-> "ok",
+       steps |-> three \o << Http("hostile", "GET", u[2], ""), Http("again", "GET", "/promises?id=*&limit=2", "") >> \o Aftermath(300)] : u \in uses}
+
 \* --- malformed bodies on every POST endpoint
 MalformedScenarios ==
   {[ep |-> p, field |-> "body", raw |-> b, expect |-> "4xx",
@@ -311,5 +322,5 @@ GrpcScenarios ==
 
 Scenarios == PromiseScenarios \cup CompleteScenarios \cup RegistrationScenarios \cup ScheduleScenarios
              \cup LockTaskScenarios \cup SearchScenarios \cup MalformedScenarios \cup GrpcScenarios
-             \cup MoreScenarios \cup HeaderScenarios
+             \cup MoreScenarios \cup HeaderScenarios \cup CursorScenarios
 =============================================================================
